@@ -105,6 +105,7 @@ UnknownSub == << [e |-> "start", name |-> Unknown, xsiType |-> NoQ, xsiNil |-> N
 
 \* faulted event sequences
 HasWild(mm) == \E k \in DOMAIN mm.fields : mm.fields[k].kind \in {"Wildcard", "Attributes"}
+HasText(mm) == \E k \in DOMAIN mm.fields : mm.fields[k].kind = "Text"
 HasReqElem(mm) == \E k \in DOMAIN mm.fields : mm.fields[k].kind = "Element" /\ mm.fields[k].card = "req"
 IntElemPositions(mm, es) ==
   {k \in DOMAIN es : es[k].e = "end" /\ \E j \in DOMAIN mm.fields :
@@ -118,9 +119,12 @@ PrimEndPositions(mm, es) ==
 FaultedEvents(mm, es, ft) ==
   CASE ft = "none" -> {es}
     \* (an element is unknown only to a model that has no wildcard to capture it)
-    [] ft = "unknownFirst" -> IF HasWild(mm) THEN {} ELSE {<<es[1]>> \o UnknownSub \o SubSeq(es, 2, Len(es))}
+    \* (an element put in front of existing text would displace that text: not done, C10 says
+    \*  "without splitting existing text")
+    [] ft = "unknownFirst" -> IF HasWild(mm) \/ HasText(mm) THEN {} ELSE {<<es[1]>> \o UnknownSub \o SubSeq(es, 2, Len(es))}
     [] ft = "unknownLast"  -> IF HasWild(mm) THEN {} ELSE {SubSeq(es, 1, Len(es) - 1) \o UnknownSub \o <<es[Len(es)]>>}
     [] ft = "unknownAttr"  -> {[es EXCEPT ![Len(es)].unknownAttr = TRUE]}
+    [] ft = "xsiAttr"      -> {es}     \* an attribute in the XSI namespace is always tolerated
     [] ft = "badValue"     -> {[es EXCEPT ![k].badValue = TRUE] : k \in IntElemPositions(mm, es)}
     [] ft = "childInPrimitive" ->
          {SubSeq(es, 1, k - 1) \o <<[e |-> "start", name |-> Unknown, xsiType |-> NoQ, xsiNil |-> NONE],
@@ -135,6 +139,7 @@ FaultedEvents(mm, es, ft) ==
 
 StrictOnly == {[unknownProps |-> TRUE, unknownAttrs |-> TRUE, convWarnings |-> TRUE]}
 LenientOnly == {[unknownProps |-> FALSE, unknownAttrs |-> FALSE, convWarnings |-> FALSE]}
+CornerCfgs == StrictOnly \cup LenientOnly
 AllCfgs == {[unknownProps |-> a, unknownAttrs |-> b, convWarnings |-> c] : a, b, c \in BOOLEAN}
 
 Init ==
@@ -175,6 +180,7 @@ InvValidAccepted == (fault = "none" /\ Terminal) => p.st = "done"
 InvStrictUnknown ==
   (fault \in {"unknownFirst", "unknownLast"} /\ Terminal) =>
       IF cfg.unknownProps THEN p.st = "err" /\ p.err = "ParserError" ELSE p.st = "done"
+InvXsiAttr == (fault = "xsiAttr" /\ Terminal) => p.st = "done"
 InvUnknownAttr ==
   (fault = "unknownAttr" /\ Terminal) =>
       IF cfg.unknownAttrs THEN p.st = "err" /\ p.err = "ParserError" ELSE p.st = "done"
